@@ -893,6 +893,9 @@ def part_b(tier: str) -> list[dict]:
             for sh in shapes:
                 obs.append(ob('B/msg/%s/%s/K1' % (topo, sh), topo, [sh], 'counters', 1, 200))
         obs.append(ob('B/msg/flat2/cancel_map/K1', 'flat2', ['cancel_map'], 'counters', 1, 200))
+        # line level: the read-receipt update must be atomic with the enqueue on the worker
+        for sh in ('submit', 'two_seq'):
+            obs.append(ob('B/line/flat1/%s/K1' % sh, 'flat1', [sh], 'counters', 1, 300, line=True, maxrank=1))
     else:
         for topo in ('flat1', 'flat2', 'flat3'):
             for sh in ('map2', 'map3', 'next3', 'nested', 'nested_map', 'two_rev', 'cancel_map', 'cancel_after_next',
